@@ -143,38 +143,12 @@ func (e *Engine) yamlIntrinsic(fn *ssa.Function, full string, args []Value) (Val
 		return IfaceVal{}, true
 	case "(*gopkg.in/yaml.v3.Node).Encode":
 		np := args[0].(PtrVal)
+		if np.slot == nil {
+			e.goPanic("yaml: Encode on nil node")
+		}
 		nt := fn.Signature.Recv().Type().Underlying().(*types.Pointer).Elem()
-		sv := (*np.slot).(*StructVal)
-		iv := args[1].(IfaceVal)
-		*structField(nt, sv, "Kind") = mkInt(yScalarNode)
-		switch {
-		case iv.typ == nil:
-			*structField(nt, sv, "Tag") = mkStr("!!null")
-			*structField(nt, sv, "Value") = mkStr("null")
-		case isBasicKind(iv.typ, types.IsString):
-			*structField(nt, sv, "Tag") = mkStr("!!str")
-			*structField(nt, sv, "Value") = iv.val
-		case isBasicKind(iv.typ, types.IsInteger):
-			t := iv.val.(*Term)
-			*structField(nt, sv, "Tag") = mkStr("!!int")
-			if t.konst {
-				*structField(nt, sv, "Value") = mkStr(fmt.Sprint(t.iv))
-			} else {
-				// keep the symbolic integer: single decimal digit only
-				if !e.decide(tAnd(tCmp("<=", mkInt(0), t), tCmp("<=", t, mkInt(9)))) {
-					unsupported("yaml.Node.Encode of symbolic integer outside 0..9")
-				}
-				*structField(nt, sv, "Value") = StrVal{bytes: []*Term{tArith("+", t, mkInt(48))}}
-			}
-		case isBasicKind(iv.typ, types.IsBoolean):
-			*structField(nt, sv, "Tag") = mkStr("!!bool")
-			if e.decide(iv.val.(*Term)) {
-				*structField(nt, sv, "Value") = mkStr("true")
-			} else {
-				*structField(nt, sv, "Value") = mkStr("false")
-			}
-		default:
-			unsupported("yaml.Node.Encode of %v", iv.typ)
+		if failed := e.yamlEncodeInto(nt, (*np.slot).(*StructVal), args[1].(IfaceVal), 0); failed {
+			return e.newError(mkStr("yaml: marshal error")), true
 		}
 		return IfaceVal{}, true
 	case "gopkg.in/yaml.v3.Unmarshal":
@@ -196,4 +170,96 @@ func (e *Engine) yamlIntrinsic(fn *ssa.Function, full string, args []Value) (Val
 func isBasicKind(t types.Type, info types.BasicInfo) bool {
 	b, ok := t.Underlying().(*types.Basic)
 	return ok && b.Info()&info != 0
+}
+
+// yamlEncodeInto fills node sv with the encoding of iv (yaml.v3's documented
+// dispatch: Marshaler first, then scalars and sequences).
+func (e *Engine) yamlEncodeInto(nt types.Type, sv *StructVal, iv IfaceVal, depth int) (failed bool) {
+	if depth > 20 {
+		unsupported("yaml.Node.Encode nesting too deep")
+	}
+	set := func(kind int, tag string, val Value) {
+		*structField(nt, sv, "Kind") = mkInt(int64(kind))
+		*structField(nt, sv, "Tag") = mkStr(tag)
+		if val != nil {
+			*structField(nt, sv, "Value") = val
+		}
+	}
+	if iv.typ == nil {
+		set(yScalarNode, "!!null", mkStr("null"))
+		return false
+	}
+	if p, ok := iv.val.(PtrVal); ok && p.slot == nil {
+		set(yScalarNode, "!!null", mkStr("null"))
+		return false
+	}
+	if m := e.findMethod(iv.typ, "MarshalYAML"); m != nil {
+		recv := iv.val
+		if _, isPtr := m.Signature.Recv().Type().Underlying().(*types.Pointer); !isPtr {
+			if p, ok := recv.(PtrVal); ok {
+				recv = copyVal(*p.slot)
+			}
+		}
+		res := e.call(m, []Value{recv}).(TupleVal)
+		if errv := res[1].(IfaceVal); errv.typ != nil {
+			return true
+		}
+		out := res[0].(IfaceVal)
+		if out.typ != nil && types.Identical(out.typ, types.NewPointer(nt)) {
+			src := out.val.(PtrVal)
+			if src.slot == nil {
+				set(yScalarNode, "!!null", mkStr("null"))
+				return false
+			}
+			cp := copyVal(*src.slot).(*StructVal)
+			copy(sv.fields, cp.fields)
+			return false
+		}
+		return e.yamlEncodeInto(nt, sv, out, depth+1)
+	}
+	switch {
+	case isBasicKind(iv.typ, types.IsString):
+		set(yScalarNode, "!!str", iv.val)
+	case isBasicKind(iv.typ, types.IsInteger):
+		t := iv.val.(*Term)
+		if t.konst {
+			set(yScalarNode, "!!int", mkStr(fmt.Sprint(t.iv)))
+		} else {
+			if !e.decide(tAnd(tCmp("<=", mkInt(0), t), tCmp("<=", t, mkInt(9)))) {
+				unsupported("yaml.Node.Encode of symbolic integer outside 0..9")
+			}
+			set(yScalarNode, "!!int", StrVal{bytes: []*Term{tArith("+", t, mkInt(48))}})
+		}
+	case isBasicKind(iv.typ, types.IsBoolean):
+		if e.decide(iv.val.(*Term)) {
+			set(yScalarNode, "!!bool", mkStr("true"))
+		} else {
+			set(yScalarNode, "!!bool", mkStr("false"))
+		}
+	case isBasicKind(iv.typ, types.IsFloat):
+		set(yScalarNode, "!!float", mkStr(strconv.FormatFloat(iv.val.(FloatVal).f, 'g', -1, 64)))
+	default:
+		if sl, ok := iv.typ.Underlying().(*types.Slice); ok {
+			s := iv.val.(SliceVal)
+			content := []Value{}
+			for _, x := range sliceElems(s) {
+				child := e.newYAMLNode(0, "", StrVal{}, nil)
+				var xi IfaceVal
+				if isIfaceType(sl.Elem()) {
+					xi = x.(IfaceVal)
+				} else {
+					xi = IfaceVal{typ: sl.Elem(), val: x}
+				}
+				if e.yamlEncodeInto(nt, (*child.slot).(*StructVal), xi, depth+1) {
+					return true
+				}
+				content = append(content, child)
+			}
+			set(ySequenceNode, "!!seq", nil)
+			*structField(nt, sv, "Content") = mkSlice(content)
+			return false
+		}
+		unsupported("yaml.Node.Encode of %v", iv.typ)
+	}
+	return false
 }
